@@ -87,7 +87,8 @@ CLAIMED.update({
              '(non-procedure call, unbound global, arity mismatch, bad operand, and a call through a SYMBOLIC heap index ranging over procedures of arity '
              '0/1/2, a number, a string and nil so that the solver decides which calls fail), 1 or 3 (thorough 5) times in a row; afterwards sp/bp/ep must '
              'equal those of a VM that never failed, a later successful evaluation must return the same value and registers, and a later failing evaluation '
-             'the same error and the same number of stack-trace frames as in a fresh VM.',
+             'the same error and the same number of stack-trace frames as in a fresh VM. Memory clause: a failing evaluation that starts on a heap at 80% utilisation holding 40 '
+             'unreachable cells ends with all of them reclaimed (the error arm collects as the success arm does), for 1 and 3 failures in a row.',
         note='Read and compile errors (no VM state touched before run) and failures inside continuations are outside. The shapes are enumerated; the symbolic '
              'content is the call target and data operands. Counterexamples are replayed on the real VM through the verif-hooks feature.',
         technique='symbolic execution of rustc MIR with z3 from fabricated VM states, native replay through hooks', design='4/C07'),
@@ -142,13 +143,14 @@ CLAIMED.update({
 
 CLAIMED.update({
     'C16': dict(
-        text='Exact numbers only: the real builtins number->string and string->number (hence `impl Display/LowerHex/Octal/Binary for Number`, Number::parse_with_exactness, '
+        text='The real builtins number->string and string->number (hence `impl Display/LowerHex/Octal/Binary for Number`, Number::parse_with_exactness, '
              'parse, parse_rational) executed from MIR on a fabricated VM for a symbolic exact z per representation (any i64 fixnum, bignums up to 2^66, any i32 numerator '
-             'over a denominator palette) at radix 2, 8, 10, 16; the printed text is a list of solver terms of symbolic length (one path per digit count). Claim per path: '
-             'the value read back is a number, exact, and equal to z; and the same text behind the matching #b/#o/#d/#x prefix, pushed through the real lex::scan and '
+             'over a denominator palette) at radix 2, 8, 10, 16; and for any finite double at radix 10; the printed text is a list of solver terms of symbolic length (one path per digit count). Claim per path: '
+             'the value read back is a number of the same exactness equal to z; and the same text behind the matching #b/#o/#d/#x prefix, pushed through the real lex::scan and '
              'parse::parse_text, denotes z (literal clause).',
-        note='Inexact numbers are outside (the shortest-round-trip printer of doubles cannot be encoded; seeded change C16A, which breaks float printing, is missed for that '
-             'reason). The integer printers/parsers of std, num-bigint and num-rational are dependencies, modelled by the defining property of positional notation '
+        note='Doubles: the digits a double is printed with are a library axiom (`{}` / `{:e}` yield a spelling that parses back to the same double: a skeleton text that keeps '
+             'only the character classes; `{:.1}` of an integer-valued double below 2^63 goes through the integer printer); what is executed is marwood\'s choice of format, the '
+             'parser chain and the lexer. NaN, infinities and inexact numbers at radix 2/8/16 are outside. The integer printers/parsers of std, num-bigint and num-rational are dependencies, modelled by the defining property of positional notation '
              '(models_fmtnum.py); a chain of divisions by ten is not decided by the back end (measured), so the round trip through identical digit terms is syntactic.',
         technique='symbolic execution of rustc MIR with z3 on fabricated VM states (symbolic-length digit strings), native replay', design='4/C16'),
 })
@@ -170,12 +172,12 @@ CLAIMED.update({
 
 CLAIMED.update({
     'C10': dict(
-        text='Exact data only: `impl Display for Cell` in write mode, char::write_escaped_char and `impl Display for Number` executed from MIR on a datum of a fixed, stated shape '
+        text='`impl Display for Cell` in write mode, char::write_escaped_char and `impl Display for Number` executed from MIR on a datum of a fixed, stated shape '
              '(leaves, lists, dotted lists, vectors, quote forms, nesting to depth 3, thorough 4) whose leaves are solver variables (any Unicode scalar value as a character and inside '
-             'strings of up to 2 chars, any i64, bignums up to 2^66, rationals over a denominator palette, booleans); the produced text goes through the real lex::scan and '
+             'strings of up to 2 chars, any i64, bignums up to 2^66, rationals over a denominator palette, finite doubles, booleans); the produced text goes through the real lex::scan and '
              'parse::parse_text. Claims per path: the datum read back is structurally equal with equal leaves and nothing is left over; writing it again yields the same text; '
              'Heap::get_as_cell(Heap::put_cell(d)) = d. Symbols: every text of up to 3 (thorough 4) symbolic chars that the reader turns into one symbol is written and read back.',
-        note='Shapes are enumerated (stated per harness in the evidence); the solver decides the leaf obligations. Inexact numbers are outside (see C16). The trip through the '
+        note='Shapes are enumerated (stated per harness in the evidence); the solver decides the leaf obligations. The digits of a printed double are a library axiom (see C16). The trip through the '
              'evaluator is reduced to put_cell / get_as_cell (compilation of (quote d) and the run loop are not executed).',
         technique='symbolic execution of rustc MIR with z3 (printer -> lexer -> parser on symbolic-length texts), native replay', design='4/C10'),
 })
